@@ -120,8 +120,9 @@ func (w *Walked) pick(r *core.Rng, pred func(*Site) bool) *Site {
 	return nil
 }
 
+var modCounts = []uint32{255, 256, 1000, 4096, 50000, 50001, 65535, 65536}
 var hugeCounts = []uint32{1 << 28, 1 << 31, 0xffffffff, 1 << 27, 1 << 20, 1 << 16, 50001, 1 << 24, 0x7fffffff, 1 << 30}
-var localCounts = []uint32{1 << 27, 1 << 28, 1 << 31, 0xffffffff, 1 << 20, 1 << 24, 50000, 50001, 1 << 16, 1 << 30, 1000}
+var localCounts = []uint32{1 << 27, 1 << 28, 1 << 31, 0xffffffff, 1 << 20, 1 << 24, 50000, 50001, 1 << 16, 1000, 50000, 49999, 20000, 5000, 300, 1 << 16, 100, 7}
 var limitVals = []uint32{0, 1, 2, 255, 256, 257, 511, 512, 513, 65535, 65536, 65537, 1 << 20, 1<<20 + 1, 1 << 28, 1 << 31, 0xffffffff}
 var valTypes = []byte{0x7f, 0x7e, 0x7d, 0x7c, 0x7b, 0x70, 0x6f}
 
@@ -198,16 +199,19 @@ func (m *mutator) one(b []byte) ([]byte, string) {
 		}
 		v := uint32(s.Val)
 		name := "count"
-		switch r.Intn(5) {
-		case 0:
+		switch r.Intn(8) {
+		case 0, 1:
 			v++
 			name += "+1"
-		case 1:
+		case 2, 3:
 			v--
 			name += "-1"
-		case 2:
-			v = uint32(r.Intn(int(s.Rem)+3))
+		case 4, 5:
+			v = uint32(r.Intn(int(s.Rem) + 3))
 			name += "-rand"
+		case 6:
+			v = modCounts[r.Intn(len(modCounts))]
+			name += "-large"
 		default:
 			v = hugeCounts[r.Intn(len(hugeCounts))]
 			name += "-huge"
@@ -496,7 +500,7 @@ func (m *mutator) custom(b []byte, w *Walked) ([]byte, string) {
 			case 1:
 				cnt := r.Intn(4)
 				c := uint32(cnt)
-				if r.Chance(1, 3) {
+				if r.Chance(1, 8) {
 					c = hugeCounts[r.Intn(len(hugeCounts))]
 				}
 				sub = append(sub, encU32(c)...)
@@ -507,14 +511,14 @@ func (m *mutator) custom(b []byte, w *Walked) ([]byte, string) {
 			default:
 				cnt := r.Intn(3)
 				c := uint32(cnt)
-				if r.Chance(1, 3) {
+				if r.Chance(1, 8) {
 					c = hugeCounts[r.Intn(len(hugeCounts))]
 				}
 				sub = append(sub, encU32(c)...)
 				for i := 0; i < cnt; i++ {
 					sub = append(sub, encU32(uint32(r.Intn(4)))...)
 					lc := uint32(1)
-					if r.Chance(1, 3) {
+					if r.Chance(1, 8) {
 						lc = hugeCounts[r.Intn(len(hugeCounts))]
 					}
 					sub = append(sub, encU32(lc)...)
@@ -523,7 +527,7 @@ func (m *mutator) custom(b []byte, w *Walked) ([]byte, string) {
 				}
 			}
 			sz := uint32(len(sub))
-			if r.Chance(1, 5) {
+			if r.Chance(1, 10) {
 				sz = hugeCounts[r.Intn(len(hugeCounts))]
 			} else if r.Chance(1, 5) {
 				sz += uint32(r.Intn(3)) - 1
